@@ -25,6 +25,18 @@ def run(prop, tier, seed, out):
                       "dev", workers=1, timeout=300, heap="2g")
         if not dev.violated:
             raise Broken("deviation no_mutex does not violate AckWholeContiguousOnce (vacuous)")
+        # several calls in flight on one ChannelSink: every call has its own bound (ChannelConc.tla); a shared timer loses wake-ups
+        CH = ('CONSTANTS\n  Callers = {1, 2, 3}\n  T = 3\n  MaxNow = 9\n  Consumes = %d\n  CtxAt <- Ctx\n  Dev = {%s}\n'
+              'SPECIFICATION Spec\nINVARIANTS NeverBlockedPastBound DeliveredAreTaken\nCHECK_DEADLOCK FALSE\n')
+        for k in (0, 1, 2):
+            cc = run_tlc(scr, "sinks", "MCChannelConc", CH % (k, ""), "chanconc-%d" % k, workers=2, timeout=600, heap="2g")
+            if cc.violated:
+                raise Broken("ChannelConc.tla violates " + cc.violated)
+            must_pass(cc, "ChannelConc")
+            out.add_tlc(cc)
+        ccd = run_tlc(scr, "sinks", "MCChannelConc", CH % (1, '"shared_timer"'), "chanconc-dev", workers=1, timeout=300, heap="2g")
+        if not ccd.violated:
+            raise Broken("deviation shared_timer does not violate NeverBlockedPastBound (vacuous)")
         outp = scr.path("srep.json")
         t0 = time.time()
         p = run_vh(vh, ["sinks-replay", "-vectors", vec.out_path, "-seed", str(seed), "-n", "2" if quick else "20", "-out", outp], timeout=2400)
